@@ -5,12 +5,17 @@ Mathematical lemmas used (and formerly trusted) by the contracts of /verif, chec
   M3fin   the entrywise form used by the pyvc postconditions: on `Fin N`, identity outside modes a ≠ b and a unitary 2×2 block on (a,b)
   Lcard   a finite set of integers has all its members below N iff counting its members below N gives its cardinality
           (the precondition "herald keys in range" of add_heralds_to_state is phrased with the counting function `cnt`)
+  Lsortperm two integer lists have the same sorted form iff one is a rearrangement of the other: `ModeSwaps.__post_init__` tests completeness of a swap
+          dictionary by `sorted(keys) != sorted(values)`; the contracts state it as "the values are the keys in some order" (proved by z3 for 0-4
+          entries over sorting networks; this lemma is the statement for every size)
 -/
 import Mathlib.LinearAlgebra.UnitaryGroup
 import Mathlib.Data.Matrix.Block
 import Mathlib.Data.Complex.Basic
 import Mathlib.Data.Finset.Card
 import Mathlib.Data.Matrix.Reflection
+import Mathlib.Data.List.Sort
+import Mathlib.Algebra.Order.Ring.Int
 
 open Matrix
 
@@ -105,3 +110,21 @@ theorem M3bs {ι : Type*} [Fintype ι] [DecidableEq ι] (a b : ι) (hab : a ≠ 
 #print axioms M3two
 #print axioms M3bs
 #print axioms Lcard
+
+
+/-- Lsortperm: two integer lists have the same sorted form iff one is a rearrangement of the other. -/
+theorem Lsortperm (l₁ l₂ : List ℤ) :
+    l₁.mergeSort (fun a b => decide (a ≤ b)) = l₂.mergeSort (fun a b => decide (a ≤ b)) ↔ l₁.Perm l₂ := by
+  constructor
+  · intro h
+    have h1 := List.mergeSort_perm l₁ (fun a b => decide (a ≤ b))
+    have h2 := List.mergeSort_perm l₂ (fun a b => decide (a ≤ b))
+    exact h1.symm.trans (h ▸ h2)
+  · intro h
+    have hp : (l₁.mergeSort (fun a b => decide (a ≤ b))).Perm (l₂.mergeSort (fun a b => decide (a ≤ b))) :=
+      (List.mergeSort_perm l₁ _).trans (h.trans (List.mergeSort_perm l₂ _).symm)
+    have s1 := List.pairwise_mergeSort' (fun a b : ℤ => a ≤ b) l₁
+    have s2 := List.pairwise_mergeSort' (fun a b : ℤ => a ≤ b) l₂
+    exact List.Perm.eq_of_pairwise' (r := fun a b : ℤ => a ≤ b) s1 s2 hp
+
+#print axioms Lsortperm
